@@ -135,9 +135,10 @@ myth_tls_call_destructors_rec(myth_tls_tree_node_t * n,
     int c_base = base;
     for (i = 0; i < myth_tls_tree_node_n_children; i++) {
       myth_tls_tree_node_t * c = n->children[i];
-      if (!c) break;
-      s += myth_tls_call_destructors_rec(c, depth + 1, c_base, c_stride, ka);
-      c_base += stride;
+      if (c) {
+	s += myth_tls_call_destructors_rec(c, depth + 1, c_base, c_stride, ka);
+      }
+      c_base += c_stride;
     }
     return s;
   }
@@ -161,9 +162,10 @@ myth_tls_tree_destroy_rec(myth_tls_tree_t * t, myth_tls_tree_node_t * n,
     int c_base = base;
     for (i = 0; i < myth_tls_tree_node_n_children; i++) {
       myth_tls_tree_node_t * c = n->children[i];
-      if (!c) break;
-      myth_tls_tree_destroy_rec(t, c, depth + 1, c_base, c_stride);
-      c_base += stride;
+      if (c) {
+	myth_tls_tree_destroy_rec(t, c, depth + 1, c_base, c_stride);
+      }
+      c_base += c_stride;
     }
   }
   myth_tls_tree_node_free(t, n);
